@@ -1413,6 +1413,52 @@ def r7_5(ctx):
                 ok = c in CLOCK_READS and (fn in (OOT, SEND_INFO) or _clock_reads_only_decide_deadline(f.body(fn)))
                 ctx.ob("cone(get_best_move):%s:%s" % (fn.split("::")[-1], c.split("::")[-1]), ok, f.body(fn).file,
                        "`%s` in %s: the search may consult nothing nondeterministic but the clock (in out_of_time, and for the `time` field of info lines)" % (c, fn))
+    # the global log level (set by `setoption`, i.e. by earlier traffic) is consulted by the logging macros
+    # only to decide whether to write a log record: a value derived from it is kept in no named variable
+    # and controls nothing but calls into the logger / formatting machinery
+    LOG_READS = ("log::max_level", "log::__private_api::enabled", "log::logger")
+    for fn in cone:
+        if not any(c in LOG_READS for c in cg.ext[fn]):
+            continue
+        b = f.body(fn)
+        ex = Exprs(b)
+        short = fn.split("::")[-1]
+
+        def from_log(e):
+            return any(x[0] == "call" and x[1] in LOG_READS for x in data_slice(ex, e))
+        kept = []
+        for loc, st in b.iter_stmts():
+            if st["k"] == "assign" and not st["place"]["proj"] and st["place"]["local"] in b.names and loc[0] in b.reachable:
+                if b.from_expansion(loc) if hasattr(b, "from_expansion") else False:
+                    continue
+                if from_log(ex.rvalue(st["rv"], loc)):
+                    kept.append((loc, b.names[st["place"]["local"]]))
+        for bb, t in b.iter_calls():
+            d = t["dest"]
+            if not d["proj"] and d["local"] in b.names and (callee_of(t) or "") in LOG_READS:
+                kept.append((b.term_loc(bb), b.names[d["local"]]))
+        ctx.ob("cone(get_best_move):%s:log-level-not-kept" % short, not kept, b.where(kept[0][0]) if kept else b.file,
+               "no variable of %s holds a value derived from the global log level%s" % (short, "" if not kept else
+                   ": `%s` does - the search then depends on a `setoption name DebugLogLevel` sent earlier in the session" % kept[0][1]))
+        bad = []
+        for s_ in b.normal:
+            if s_ not in b.reachable or b.term(s_)["k"] != "switch":
+                continue
+            if not from_log(ex.switch_discr(s_)):
+                continue
+            tt = b.term(s_)
+            for tg in {tg for _v, tg in tt["cases"]} | {tt["otherwise"]}:
+                for x in b.normal:
+                    if x in b.reachable and (x == tg or b.edge_dominates((s_, tg), x)) and (x != tg or len(b.preds(tg)) == 1 if hasattr(b, "preds") else True):
+                        t2 = b.term(x)
+                        if t2["k"] == "call":
+                            c2 = callee_of(t2) or ""
+                            if f.has_body(c2) or f.has_body(t2.get("resolved") or ""):
+                                bad.append((x, c2))
+                        if t2["k"] == "return":
+                            bad.append((x, "return"))
+        ctx.ob("cone(get_best_move):%s:log-level-controls-only-logging" % short, not bad, b.where(b.term_loc(bad[0][0])) if bad else b.file,
+               "a test of the global log level guards only the writing of log records%s" % ("" if not bad else ": `%s` is control-dependent on it" % bad[0][1]))
     # the seed of the hasher is a constant
     for fn in cone:
         b = f.body(fn)
